@@ -384,10 +384,12 @@ static void sched_run(const std::vector<std::string> &plan, Child &c) {
   g_ctx = &ctx;
   std::vector<std::string> cfg_w;
   rt::Config rc;
+  bool explicit_schedule = false;
   for (auto &line : plan) {
     auto w = words(line);
     if (w.empty()) continue;
     if (w[0] == "cfg") cfg_w = w;
+    else if (w[0] == "replay") explicit_schedule = true;
     else if (w[0] == "sw" && w.size() >= 4)
       rc.schedule.push_back(rt::SchedEntry{atoi(w[1].c_str()), strtoull(w[2].c_str(), nullptr, 10), atoi(w[3].c_str())});
     else if (w[0][0] == 't' && w.size() >= 3 && w[1] == "op") {
@@ -400,7 +402,7 @@ static void sched_run(const std::vector<std::string> &plan, Child &c) {
   if ((int)ctx.task_ops.size() < ntasks) ctx.task_ops.resize(ntasks);
   ntasks = std::min<int>(ctx.task_ops.size(), 16);
   std::string st = kv(cfg_w, "strategy", "sync");
-  rc.strategy = !rc.schedule.empty() || st == "replay" ? rt::S_REPLAY
+  rc.strategy = explicit_schedule || !rc.schedule.empty() || st == "replay" ? rt::S_REPLAY
                 : st == "random" ? rt::S_RANDOM : st == "pct" ? rt::S_PCT : st == "conflict" ? rt::S_CONFLICT : rt::S_SYNC;
   rc.p_den = (int)kvi(cfg_w, "p", 64);
   rc.pct_d = (int)kvi(cfg_w, "pct_d", 2);
